@@ -255,6 +255,31 @@ fn int_pair<const N: usize, const M: usize>(sa: usize, va: &[i32], sb: usize, vb
         if a.clone().max(b3.clone()) != if ord == Ordering::Greater { a.clone() } else { b3.clone() } {
             return Err("Ord::max disagrees with cmp".into());
         }
+        // one-byte element types whose order is not the order of their bytes, and other primitive types, through Ord::cmp
+        {
+            use std::cmp::Reverse;
+            let (ia, ib): (Vec<i8>, Vec<i8>) = (va.iter().map(|v| (*v as i8) * 2 - 1).collect(), vb.iter().map(|v| (*v as i8) * 2 - 1).collect());
+            let (x, y) = (build::<N, i8>(sa, &ia, 100), build::<N, i8>(sb, &ib, 100));
+            if x.cmp(&y) != ia.cmp(&ib) || x.partial_cmp(&y) != ia.partial_cmp(&ib) || (x == y) != (ia == ib) {
+                return Err(format!("i8 elements: cmp gave {:?}, the sequences {:?} vs {:?} give {:?}", x.cmp(&y), ia, ib, ia.cmp(&ib)));
+            }
+            let (ra, rb): (Vec<Reverse<u8>>, Vec<Reverse<u8>>) = (va.iter().map(|v| Reverse(*v as u8)).collect(), vb.iter().map(|v| Reverse(*v as u8)).collect());
+            let (x, y) = (build::<N, Reverse<u8>>(sa, &ra, Reverse(9)), build::<N, Reverse<u8>>(sb, &rb, Reverse(9)));
+            if x.cmp(&y) != ra.cmp(&rb) || x.partial_cmp(&y) != ra.partial_cmp(&rb) {
+                return Err(format!("Reverse<u8> elements: cmp gave {:?}, the sequences {:?} vs {:?} give {:?}", x.cmp(&y), ra, rb, ra.cmp(&rb)));
+            }
+            let (oa, ob): (Vec<Option<bool>>, Vec<Option<bool>>) = (va.iter().map(|v| if *v == 0 { None } else { Some(*v % 2 == 0) }).collect(), vb.iter().map(|v| if *v == 0 { None } else { Some(*v % 2 == 0) }).collect());
+            let (x, y) = (build::<N, Option<bool>>(sa, &oa, Some(true)), build::<N, Option<bool>>(sb, &ob, Some(true)));
+            if x.cmp(&y) != oa.cmp(&ob) {
+                return Err(format!("Option<bool> elements: cmp gave {:?}, the sequences {:?} vs {:?} give {:?}", x.cmp(&y), oa, ob, oa.cmp(&ob)));
+            }
+            let (x, y) = (build::<N, i32>(sa, va, JUNK), build::<N, i32>(sb, vb, JUNK));
+            let (na, nb): (Vec<i32>, Vec<i32>) = (va.iter().map(|v| -*v).collect(), vb.iter().map(|v| -*v).collect());
+            let (xn, yn) = (build::<N, i32>(sa, &na, JUNK), build::<N, i32>(sb, &nb, JUNK));
+            if x.cmp(&y) != ord || xn.cmp(&yn) != na.cmp(&nb) {
+                return Err(format!("i32 elements: cmp disagrees with the sequences {:?} vs {:?}", va, vb));
+            }
+        }
         if eq && h(&a) != h(&b3) {
             return Err(format!("equal buffers of the same capacity hash differently: {:?}, layouts start {} and {}", va, sa, sb));
         }
